@@ -20,6 +20,7 @@ GENERATORS = {
     "SymAgg_gen": "translator.gen_symagg",
     "TimeDim_gen": "translator.gen_timedim",
     "Interp_gen": "translator.gen_interp",
+    "Satisfy_gen": "translator.gen_satisfy",
 }
 
 
